@@ -108,6 +108,9 @@ pub trait Prop {
     fn exhaustive(&self) -> bool {
         true
     }
+    /// called in a worker before `prepare`: the worker only executes indexes congruent to w modulo nw,
+    /// so a property may avoid materialising the other cases (the enumeration order must not change)
+    fn set_shard(&mut self, _w: u64, _nw: u64) {}
 }
 
 // ------------------------------------------------------------------ per-case instrumentation
@@ -247,6 +250,7 @@ pub fn worker_main(mut prop: Box<dyn Prop>, tier: Tier, w: u64, nw: u64, dir: &P
     install_panic_hook();
     let journal = Journal::open(&dir.join(format!("journal.{}", w)));
     alloc::HUGE_SLOT.store(journal.slot_ptr(2), Relaxed);
+    prop.set_shard(w, nw);
     if let Err(e) = prop.prepare(tier) {
         eprintln!("worker {}: prepare failed: {}", w, e);
         return 2;
